@@ -252,8 +252,8 @@ def lifecycle_scenario(i, cause, point, pending, opts=None, after_api=False, bef
             return None
     if cause == "cmdpanic" and point == "init":
         return None
-    if point == "init" and cause in ("kill",):
-        return None  # Kill racing the first lines of Run: unsynchronised p.renderer (outside every property)
+    # (Kill while Init runs is after renderer.start(): inside the model.  Kill racing the lines of Run before that is
+    #  outside every property: p.renderer / p.handlers are written unsynchronised there.)
     if point != "init" and point != "idle":
         script.append(DO("go-send", msg=trigger))
     if point == "view":
